@@ -280,7 +280,9 @@ func (p *Pool) Run(cases []any, onResult func(i int, out json.RawMessage, crash 
 				}
 				out, crash := p.exec1(wi, enc[i])
 				flaky := false
-				if crash != nil && crash.Killed {
+				if crash != nil && (crash.Killed || crash.Timeout) {
+					// the kernel killed the worker, or the case did not finish in time: both can be the machine (memory,
+					// load from the other workers) rather than the case - decide when the case has the machine to itself
 					mu.Lock()
 					deferred = append(deferred, i)
 					mu.Unlock()
@@ -312,13 +314,23 @@ func (p *Pool) Run(cases []any, onResult func(i int, out json.RawMessage, crash 
 		}
 	}
 	sort.Ints(deferred)
+	saved := p.CaseTimeout
+	if saved == 0 {
+		saved = 300 * time.Second
+	}
+	p.CaseTimeout = 4 * saved
+	defer func() { p.CaseTimeout = saved }()
 	for _, i := range deferred {
 		out, crash := p.exec1(0, enc[i])
 		if crash != nil && crash.Killed {
 			addResourceSkip(string(enc[i]))
 			continue
 		}
-		onResult(i, out, crash, crash == nil)
+		if crash == nil {
+			fmt.Printf("NOTE: a case that was killed or timed out next to the other workers finished when run alone: %s\n", truncate(string(enc[i]), 300))
+		}
+		// a second time-out, alone and with four times the limit, is a hang
+		onResult(i, out, crash, false)
 	}
 }
 
@@ -335,4 +347,11 @@ func MemAvailableGiB() int {
 		}
 	}
 	return 1 << 20
+}
+
+func truncate(s string, n int) string {
+	if len(s) > n {
+		return s[:n] + "..."
+	}
+	return s
 }
